@@ -254,6 +254,9 @@ func (d *V1) do(op Op) Resp {
 		return Resp{Desc: descFromV1(out.TableDescription)}
 	case KDeleteGSI:
 		in := &dynamodb.UpdateTableInput{TableName: aws.String(op.Table)}
+		if op.IdxCfg != nil {
+			in.AttributeDefinitions = []*dynamodb.AttributeDefinition{{AttributeName: aws.String(op.IdxCfg.Hash), AttributeType: aws.String(op.IdxCfg.HashT)}}
+		}
 		in.GlobalSecondaryIndexUpdates = []*dynamodb.GlobalSecondaryIndexUpdate{{Delete: &dynamodb.DeleteGlobalSecondaryIndexAction{IndexName: aws.String(op.Index)}}}
 		out, err := c.UpdateTable(in)
 		if err != nil {
